@@ -160,6 +160,9 @@ func newEnv(idx int, localID string) *Env {
 	currentEnv = e
 	bgp.SetLogger(func(v ...interface{}) {
 		line := fmt.Sprint(v...)
+		if os.Getenv("VERIF_RAWLOG") != "" {
+			fmt.Fprintln(os.Stderr, "RAW", time.Since(e.tr.start), line)
+		}
 		m := logRe.FindStringSubmatch(line)
 		if m == nil {
 			return
